@@ -250,10 +250,9 @@ class Program:
     def __init__(self, rows):
         self.rows = []
         for r in rows:
-            if hasattr(r, "_asdict"):
-                r = r._asdict()
-            elif not isinstance(r, dict):
-                r = {k: getattr(r, k) for k in getattr(r, "_schema", [])}
+            if not isinstance(r, dict):
+                r = r.to_dict()          # lian.util.data_model.Row
+            r = {k: (None if isnull(v) else (int(v) if k in ("stmt_id", "parent_stmt_id") else v)) for k, v in r.items()}
             self.rows.append(r)
         self.children = {}        # block id (or 0) -> [row]
         self.by_id = {}
